@@ -112,7 +112,7 @@ def r14a(chk, rid='R14.a'):
     # __update_knownNames rebuilds from scratch
     fn = chk.repo.fn(P, 'Profiles.__update_knownNames')
     src = ast.unparse(fn)
-    chk.ob(rid, P, 'Profiles.__update_knownNames', 'rebuilds the list from the compiled tables', 'self._knownNames = []' in src and 'self._profilesProperties.values()' in src, src[:150])
+    chk.ob(rid, P, 'Profiles.__update_knownNames', 'rebuilds the list from the compiled tables', 'self._knownNames = []' in src and 'self._profilesProperties.values()' in src, src[:150], shape=True)
 
 
 def r14b(chk, rid='R14.b'):
@@ -130,7 +130,7 @@ def r14b(chk, rid='R14.b'):
             ok = ok and okd
     chk.ob(rid, P, 'Profiles.removeProfile', 'a failing lookup precedes every deletion', ok, 'an unknown profile name can delete part of the registry before the error is raised')
     src = ast.unparse(fn)
-    chk.ob(rid, P, 'Profiles.removeProfile', 'KeyError becomes NoSuchProfileException', 'except KeyError' in src and 'raise NoSuchProfileException' in src, '')
+    chk.ob(rid, P, 'Profiles.removeProfile', 'KeyError becomes NoSuchProfileException', 'except KeyError' in src and 'raise NoSuchProfileException' in src, '', shape=True)
     # the three tables are reduced together
     tables = {t for d in dels for t in ('_profilesProperties', '_rawProfiles', '_profileNames') if f'self.{t}[' in text(d.stmt)}
     chk.ob(rid, P, 'Profiles.removeProfile', 'compiled table, raw table and name list are reduced together', tables == {'_profilesProperties', '_rawProfiles', '_profileNames'}, str(sorted(tables)))
@@ -143,13 +143,35 @@ def r14c(chk, rid='R14.c'):
     allb = [n for n in fn.body if isinstance(n, ast.If) and text(n.test) == 'all']
     if len(allb) != 1:
         raise AnalysisError('removeProfile: `if all:` not found')
-    body = ast.unparse(ast.Module(body=allb[0].body, type_ignores=[]))
-    clears = 'self._rawProfiles.clear()' in body
-    resets = 'self._usedMacros = ' in body or 'self._resetProperties(' in body
+    eff = Effects.get(chk.repo)
+    if not hasattr(eff, 'writes'):
+        eff.compute_writes(scratch={'_readonly', '_log'})
+
+    def branch_writes(stmts):
+        w = set()
+        for st in stmts:
+            for x in ast.walk(st):
+                if isinstance(x, (ast.Assign, ast.AugAssign, ast.Delete)):
+                    for t in (x.targets if not isinstance(x, ast.AugAssign) else [x.target]):
+                        a = eff.self_attr(t)
+                        if a:
+                            w.add(a)
+                if isinstance(x, ast.Call) and isinstance(x.func, ast.Attribute):
+                    a = eff.self_attr(x.func.value)
+                    if a and x.func.attr in eff.SELF_MUTATORS:
+                        w.add(a)
+                    if isinstance(x.func.value, ast.Name) and x.func.value.id == 'self':
+                        for c in eff.resolve_call(P, 'Profiles.removeProfile', x):
+                            w |= eff.writes.get(c, set())
+        return w
+
+    wall_ = branch_writes(allb[0].body)
+    clears = '_rawProfiles' in wall_
+    resets = '_usedMacros' in wall_
     chk.ob(rid, P, 'Profiles.removeProfile', 'removing all profiles resets the macro environment', clears and resets,
            'the macros of the removed profiles stay usable: add a profile with macro foo, remove all, add a profile that uses {foo} without defining it - accepted, while a fresh registry raises KeyError')
     other = ast.unparse(ast.Module(body=allb[0].orelse, type_ignores=[]))
-    chk.ob(rid, P, 'Profiles.removeProfile', 'removing one profile with macros re-expands the rest', "self._rawProfiles[profile]['macros']" in other and 'self._resetProperties()' in other, '')
+    chk.ob(rid, P, 'Profiles.removeProfile', 'removing one profile with macros re-expands the rest', "self._rawProfiles[profile]['macros']" in other and 'self._resetProperties()' in other, '', shape=True)
     # the re-expansion must depend on nothing but "the removed profile had macros"
     resets = [c for c in ast.walk(allb[0].orelse[0] if allb[0].orelse else fn) if False]
     ctrl = []
@@ -178,9 +200,9 @@ def r14c(chk, rid='R14.c'):
                 chk.ob(rid, P, q, f'`{text(c)[:60]}`', False, 'the macro environment is derived state and must be recomputed, not patched')
     rp = ast.unparse(chk.repo.fn(P, 'Profiles._resetProperties'))
     ok = 'macros = Profiles._TOKEN_MACROS.copy()' in rp and 'macros.update(Profiles._MACROS.copy())' in rp and "macros.update(self._rawProfiles[profile]['macros'])" in rp and 'self._usedMacros = macros' in rp and 'self._profilesProperties.clear()' in rp
-    chk.ob(rid, P, 'Profiles._resetProperties', 'environment = built-in macros + macros of the remaining profiles; all tables re-expanded from the raw patterns', ok, 'history leaks into the environment')
+    chk.ob(rid, P, 'Profiles._resetProperties', 'environment = built-in macros + macros of the remaining profiles; all tables re-expanded from the raw patterns', ok, 'history leaks into the environment', shape=True)
     ap = ast.unparse(chk.repo.fn(P, 'Profiles.addProfile'))
-    chk.ob(rid, P, 'Profiles.addProfile', 'a profile that redefines a known macro re-expands everything', 'self._resetProperties(newMacros=macros)' in ap and "'properties': properties.copy()" in ap and "'macros': macros.copy()" in ap, '')
+    chk.ob(rid, P, 'Profiles.addProfile', 'a profile that redefines a known macro re-expands everything', 'self._resetProperties(newMacros=macros)' in ap and "'properties': properties.copy()" in ap and "'macros': macros.copy()" in ap, '', shape=True)
 
 
 def r14d(chk, rid='R14.d'):
@@ -197,4 +219,4 @@ def r14d(chk, rid='R14.d'):
     w = eff.writes.get((P, 'Profiles._setDefaultProfiles'), set())
     chk.ob(rid, P, 'Profiles._setDefaultProfiles', 'only stores the selection', w == {'_defaultProfiles'}, f'writes {sorted(w)}')
     gd = ast.unparse(chk.repo.fn(P, 'Profiles._getDefaultProfiles'))
-    chk.ob(rid, P, 'Profiles._getDefaultProfiles', 'no selection means all registered profiles', 'return self.profiles' in gd, '')
+    chk.ob(rid, P, 'Profiles._getDefaultProfiles', 'no selection means all registered profiles', 'return self.profiles' in gd, '', shape=True)
